@@ -20,6 +20,9 @@ from checks import kani_runner as K
 VERIF = os.path.dirname(os.path.dirname(os.path.abspath(__file__)))
 WORLD = os.path.join(VERIF, "kani", "c06world")
 QUICK = {"c06_allocate__0", "c06_retain_release__0_flat", "c06_process_pending__1"}
+# instances CBMC does not finish on this image (time-out after 40 min / memory beyond 24 GB when
+# run alone): not part of either tier unless C06_HEAVY=1; listed in the evidence as not decided
+HEAVY = {"c06_retain_release__1_nested", "c06_process_pending__2", "c06_process_pending__3"}
 
 
 def prepare(dst):
@@ -42,6 +45,9 @@ def main():
     names = re.findall(r"^fn (c06_\w+)\(\)", src, re.M)
     if rep.tier == "quick":
         names = [n for n in names if n in QUICK]
+    elif os.environ.get("C06_HEAVY") != "1":
+        rep.extra["not_decided"] = sorted(n for n in names if n in HEAVY)
+        names = [n for n in names if n not in HEAVY]
     scratch = tempfile.mkdtemp(prefix="qv-verif-c06.")
     try:
         prepare(scratch)
@@ -76,8 +82,8 @@ def main():
                 rep.inconc("%s: %s after %.0fs" % (n, r.status, r.seconds))
     finally:
         K.cleanup(scratch)
-    rep.bounds = {"slots": 3, "pending_free queue": "0..3 entries (concrete length per instance, arbitrary contents)",
-                  "refcounts": "all u32", "values released/retained": "a heap binary, bare or nested one level in a tuple"}
+    rep.bounds = {"slots": 3, "pending_free queue": "0..1 entries (concrete length per instance, arbitrary contents); 2 and 3 entries only with C06_HEAVY=1",
+                  "refcounts": "all u32", "values released/retained": "a heap binary (bare; the instance nested one level in a tuple does not finish)"}
     rep.assumptions = [
         "stand-ins: Value with borrowed field slices, BinaryData = length only, Error = InvalidArgument; stub alloc::fmt::format",
         "pre-states are constrained only by the representation invariant and the callers' documented preconditions (retain/release on a live slot, release with a positive count, retain below u32::MAX)",
